@@ -176,6 +176,15 @@ def r02b(R):
                     isinstance(val[lo], (int, float)) and val[lo] < val[hi],
                     '%r must bind tighter than %r but Token.prec gives %s vs %s'
                     % (hi, lo, val[hi], val[lo]))
+    # `not` must stay below every binary operator: the climbing loop treats
+    # it as a (right-associative) operator of that precedence if it is not,
+    # and loops for ever on `a or b not c`
+    R.check(prec_f, "prec('not') < prec of every binary operator",
+            isinstance(val['not'], (int, float)) and all(
+                val['not'] < val[s] for s in syms),
+            '`not` has the precedence of a binary operator (%s): the '
+            'expression parser takes it for one and does not terminate on an '
+            'input such as {1 or 2 not 3}' % val['not'])
     R.check(prec_f, "prec(x) >= 0 for every binary operator",
             all(isinstance(val[s], (int, float)) and val[s] >= 0 for s in syms),
             'a binary operator has negative precedence: the climbing loop '
